@@ -346,6 +346,10 @@ pub struct NetSpec {
     pub drv: DrvSpec,
     /// shift of the virtual epoch (C20)
     pub time_shift_us: u64,
+    /// from this instant on the client endpoint's datagrams leave from its alternate address (a NAT
+    /// rebinding as seen by the server); None: never
+    #[serde(default)]
+    pub client_move_at_us: Option<u32>,
 }
 
 impl Default for NetSpec {
@@ -364,6 +368,7 @@ impl Default for NetSpec {
             mtu_steps: vec![],
             drv: DrvSpec::default(),
             time_shift_us: 0,
+            client_move_at_us: None,
         }
     }
 }
@@ -789,7 +794,18 @@ impl World {
         let id = self.next_dgram_id;
         self.next_dgram_id += 1;
         self.stats.dgrams_sent += 1;
-        let from = self.eps[from_ep].addrs[self.eps[from_ep].cur_src];
+        let mut from = self.eps[from_ep].addrs[self.eps[from_ep].cur_src];
+        if let (Some(t), false) = (self.spec.client_move_at_us, self.eps[from_ep].is_server) {
+            if self.now >= t as u64 {
+                // alternate address: same host, another port
+                let mut alt = self.eps[from_ep].addrs[0];
+                alt.set_port(alt.port() ^ 0x0400);
+                if !self.eps[from_ep].addrs.contains(&alt) {
+                    self.eps[from_ep].addrs.push(alt);
+                }
+                from = alt;
+            }
+        }
         let dir = if self.eps[from_ep].is_server { 1 } else { 0 };
         let lat = self.spec.latency_us[dir] as u64;
         let size = bytes.len();
